@@ -131,11 +131,15 @@ where
         let path = self.changes_path();
         fs::create_dir_all(&path)?;
 
+        // Records above the stamp this commit starts from belong to a future that a
+        // rollback abandoned: they are not on the new chain and must not count
+        // towards retention.
+        let current = self.header.stamp();
         let files: BTreeMap<Stamp, PathBuf> = fs::read_dir(&path)?
             .filter_map(|entry| {
                 let path = entry.ok()?.path();
                 let s = Stamp::from(path.file_name()?.to_str()?.parse::<u64>().ok()?);
-                if s < stamp {
+                if s < stamp && s <= current {
                     Some((s, path))
                 } else {
                     let _ = fs::remove_file(&path);
